@@ -98,7 +98,7 @@ type c16Scenario struct {
 }
 
 type c16Result struct {
-	ID        int              `json:"id"`
+	ID        int               `json:"id"`
 	Delivered map[string]string `json:"delivered"` // k -> hex of what the CURRENT generation's service read
 	Echoed    map[string]string `json:"echoed"`    // k -> hex of payloads received back tagged with k
 	EOFs      map[string]int    `json:"eofs"`      // k -> EOF messages received for k
